@@ -1,7 +1,7 @@
 """Cross-cutting properties (C11, C12, C14, C15) aggregate one mode over every container family."""
 import importlib
 
-FAMILIES = ['vector', 'list', 'tree', 'hashtbl', 'listtbl', 'hasharr']
+FAMILIES = ['vector', 'list', 'tree', 'hashtbl', 'listtbl', 'hasharr', 'qlog']
 
 
 def fams():
